@@ -176,7 +176,58 @@ Proof.
   rewrite vc_claims_data, vc_permissions, !map_app, map_when. factor_reports. reflexivity.
 Qed.
 
+(* ---------- ExternalAuthorization.Validate ---------- *)
+Section ExtAuth.
+  Variable role_of : string -> role.
+  Definition is_curve (k : string) : bool := is_role role_of RCurve k.
+
+  Definition eaubody (_ : Z) (u : string) (vr : list go_issue) : ctl (list go_issue) (list go_issue) :=
+    Cont (if negb (is_user role_of u) then vr ++ [GoError] else vr).
+  Lemma eauloop : forall (l : list string) (i : Z) (vr : list go_issue),
+    go_range (R:=list go_issue) eaubody i l vr =
+    inl (vr ++ map goi (flat_map (fun u => when (negb (is_role role_of RUser u)) Blocking) l)).
+  Proof.
+    induction l as [|u l IH]; intros i vr; [cbn; now rewrite app_nil_r|].
+    cbn [go_range flat_map]. unfold eaubody at 1. rewrite IH, map_app, map_when. unfold is_user.
+    destruct (negb (is_role role_of RUser u)); cbn [goi app]; rewrite <- ?app_assoc; reflexivity.
+  Qed.
+
+  Definition eaabody (all : list string) (_ : Z) (a : string) (vr : list go_issue) : ctl (list go_issue) (list go_issue) :=
+    if ((a =? "*")%string && (go_llen all >? 1)%Z) then Cont (vr ++ [GoError])
+    else if (a =? "*")%string then Cont vr
+    else Cont (if negb (is_acct role_of a) then vr ++ [GoError] else vr).
+  Lemma eaaloop all : forall (l : list string) (i : Z) (vr : list go_issue),
+    go_range (R:=list go_issue) (eaabody all) i l vr =
+    inl (vr ++ map goi (flat_map (fun x => if (x =? "*")%string then when (Nat.ltb 1 (List.length all)) Blocking
+                                           else when (negb (is_role role_of RAccount x)) Blocking) l)).
+  Proof.
+    assert (Hgt : (go_llen all >? 1)%Z = Nat.ltb 1 (length all)).
+    { unfold go_llen. rewrite Z.gtb_ltb. destruct (Nat.ltb_spec 1 (length all)); [apply Z.ltb_lt|apply Z.ltb_ge]; lia. }
+    induction l as [|a l IH]; intros i vr; [cbn; now rewrite app_nil_r|].
+    cbn [go_range flat_map]. unfold eaabody at 1. rewrite Hgt, map_app. unfold is_acct.
+    destruct (a =? "*"); cbn [andb].
+    - destruct (Nat.ltb 1 (length all)); rewrite IH; cbn [when map goi app]; rewrite <- ?app_assoc; reflexivity.
+    - rewrite IH, map_when. destruct (negb (is_role role_of RAccount a)); cbn [goi app]; rewrite <- ?app_assoc; reflexivity.
+  Qed.
+
+  Lemma vc_ext_auth (a : ext_auth) (vr : list go_issue) :
+    V2.ExternalAuthorization_Validate (ea_accounts a) (ea_users a) (ea_xkey a) (is_acct role_of) is_curve (is_user role_of) vr
+    = vr ++ map goi (v_ext_auth role_of a).
+  Proof.
+    unfold V2.ExternalAuthorization_Validate, v_ext_auth.
+    change (go_range _ 0%Z (ea_users a) ?v) with (go_range (R:=list go_issue) eaubody 0%Z (ea_users a) v).
+    rewrite eauloop. cbv zeta beta iota.
+    change (go_range _ 0%Z (ea_accounts a) ?v) with (go_range (R:=list go_issue) (eaabody (ea_accounts a)) 0%Z (ea_accounts a) v).
+    rewrite eaaloop. cbv zeta beta iota.
+    rewrite !map_app, !map_when. unfold is_curve.
+    assert (H1 : ((go_llen (ea_accounts a) >? 0)%Z && (go_llen (ea_users a) =? 0)%Z) = (negb (is_nil (ea_accounts a)) && is_nil (ea_users a))).
+    { unfold go_llen. destruct (ea_accounts a); destruct (ea_users a); reflexivity. }
+    rewrite H1. factor_reports. reflexivity.
+  Qed.
+End ExtAuth.
+
 Print Assumptions vc_activation_claims.
 Print Assumptions vc_auth_response.
 Print Assumptions vc_permissions.
 Print Assumptions vc_user_claims.
+Print Assumptions vc_ext_auth.
